@@ -234,7 +234,10 @@ func sweepStruct(r *core.Run, L, noPrune int) {
 func Main(r *core.Run) {
 	L, Ls, noPrune := 2, 4, 4
 	if !r.Quick() {
-		L, Ls, noPrune = 3, 6, 4
+		// (length 6 over the 53-byte alphabet was tried: > 85 minutes on 16 cores, not completed; the
+		// classes of input it would add — a sixth symbol after five live ones — are reached by the
+		// mutation closure of valid encodings)
+		L, Ls, noPrune = 3, 5, 4
 	}
 	r.Rule(fmt.Sprintf("every byte string of length ≤%d over 256 values; every string of length ≤%d over a %d-byte structural alphabet (pruned beyond length %d below prefixes the reference rejects as malformed or accepts as complete); every single mutation (and, thorough, pairs on short encodings) of valid encodings; each in strict and relaxed mode. Non-trivial = verdict not decided as 'truncated' (the decoder consumed at least one whole head and went on); distinct by construction of the odometer / per-base de-duplication.", L, Ls, len(structAlphabet), noPrune))
 	r.Assume("CID validity is delegated to go-cid (cid.Cast) in both the library and the reference")
